@@ -2,17 +2,38 @@
 (***************************************************************************)
 (* Property C10 over the request-level observables of a throttling flow    *)
 (* rule: a set `reqs' of records                                           *)
-(*   [id, arr, b, tn, td, res : "pass"|"reject", w, inv, ret]              *)
-(* arr = arrival time (clock at invocation), b = batch count, tn / td =    *)
-(* the THRESHOLD IN FORCE FOR THIS REQUEST (a fraction; it is an argument  *)
-(* of every single check: constant for a Direct rule, but moving from call *)
-(* to call for MemoryAdaptive / WarmUp rules), w = wait it was asked to    *)
-(* sleep, inv / ret = positions of invocation / return in the total order  *)
-(* of the execution.  `si' is the statistic interval of the rule in the    *)
-(* time unit of the records.                                               *)
+(*   [id, arr, b, tn, td, si, mq, g, res : "pass"|"reject", w, inv, ret]   *)
+(* arr = arrival time (clock at invocation), b = batch count, w = wait it  *)
+(* was asked to sleep, inv / ret = positions of invocation / return in the *)
+(* total order of the execution.                                           *)
+(* EVERY PARAMETER OF THE RULE IS A PER-REQUEST QUANTITY - a request is    *)
+(* owed the spacing / the limit of the rule IN FORCE AT ITS ARRIVAL:       *)
+(*   tn / td  the threshold (a fraction; an argument of every single       *)
+(*            check: it moves from call to call for MemoryAdaptive /       *)
+(*            WarmUp rules and changes when the rule is reloaded),         *)
+(*   si       the statistic interval, mq the maximum queueing time (both   *)
+(*            in the time unit of the records; replaced by a rule reload), *)
+(*   g        the EPOCH of the rule list: the number of reloads            *)
+(*            (flow.LoadRules / LoadRulesOfResource) of the resource's     *)
+(*            rule that happened before the arrival.                       *)
 (* The spacing a request is entitled to demand is computed from ITS OWN    *)
-(* threshold:  Iv(r, si) = ceil(b * si / (tn/td)).                         *)
+(* parameters:  Iv(r) = ceil(b * si / (tn/td)).                            *)
 (* passT = arr + w is the assigned pass time.                              *)
+(*                                                                         *)
+(* What is owed ACROSS a reload (the statement of C10 does not fix it;     *)
+(* stated here once, for the model and for the judged executions):         *)
+(*  * Spacing is demanded between admitted requests of the SAME epoch      *)
+(*    only.  The first request after a reload owes nothing to passes       *)
+(*    scheduled under the previous rule: both a checker that starts afresh *)
+(*    (what the library does when the rule changed) and one that keeps the *)
+(*    queue position (what it does when the reload changed nothing - that  *)
+(*    it MUST then keep it is property C14, not C10) are accepted.         *)
+(*  * From its second request on, an epoch is paced by the rule loaded     *)
+(*    LAST: si, threshold of that rule; every wait is bounded by ITS mq.   *)
+(*  * A rejection must be justified with the spacing and the limit in      *)
+(*    force at the arrival of the rejected request; the admitted requests  *)
+(*    it may count are those of ANY epoch (a carried-over queue position   *)
+(*    is acceptable, an old interval or an old limit is not).              *)
 (* Used by Throttle (model level) and Throttle_Trace (real executions).    *)
 (***************************************************************************)
 EXTENDS Integers, FiniteSets
@@ -22,7 +43,7 @@ CeilDiv(a, d) == (a + d - 1) \div d          \* a >= 0, d > 0
 Owed(b, tn, td, si) ==
     IF b <= 0 \/ tn <= 0 THEN 0
     ELSE LET x == b * td IN x * (si \div tn) + CeilDiv(x * (si % tn), tn)
-Iv(r, si)     == Owed(r.b, r.tn, r.td, si)
+Iv(r)         == Owed(r.b, r.tn, r.td, r.si)
 \* threshold <= 0, or the batch exceeds the threshold of this request: rejected whatever the pacing state is
 Big(r)        == r.tn <= 0 \/ r.b * r.td > r.tn
 
@@ -36,20 +57,21 @@ MemThr(m, mem) ==
 PassT(r)      == r.arr + r.w
 Admitted(rs)  == { r \in rs : r.res = "pass" }
 \* requests with batch 0 are passed without touching the pacing state: they are outside the spacing order
-Paced(rs, si) == { r \in Admitted(rs) : Iv(r, si) > 0 }
+Paced(rs)     == { r \in Admitted(rs) : Iv(r) > 0 }
 
-\* consecutive pass times are at least the later request's spacing apart (hence never equal)
-Spacing(rs, si) ==
-    \A a, b \in Paced(rs, si) : a.id # b.id =>
-        \/ PassT(b) - PassT(a) >= Iv(b, si)
-        \/ PassT(a) - PassT(b) >= Iv(a, si)
-\* nobody is asked to wait longer than the maximum queueing time
-BoundedWait(rs, maxq) == \A r \in Admitted(rs) : r.w >= 0 /\ r.w <= maxq
+\* consecutive pass times of one epoch are at least the later request's spacing apart (hence never equal)
+Spacing(rs) ==
+    \A a, b \in Paced(rs) : (a.id # b.id /\ a.g = b.g) =>
+        \/ PassT(b) - PassT(a) >= Iv(b)
+        \/ PassT(a) - PassT(b) >= Iv(a)
+\* nobody is asked to wait longer than the maximum queueing time in force at its arrival
+BoundedWait(rs) == \A r \in Admitted(rs) : r.w >= 0 /\ r.w <= r.mq
 \* a rejection is justified: batch over threshold, or - even counting every admitted request invoked before the
-\* rejected one returned - honouring the spacing (of the rejected request's own threshold) would exceed the queueing limit
+\* rejected one returned - honouring the spacing (of the rejected request's own threshold and statistic interval)
+\* would exceed the queueing limit in force at its arrival
 \* (tol: slack in time units for the float rounding of the spacing in the real code; 0 at model level)
-Justified(r, rs, si, maxq, tol) ==
+Justified(r, rs, tol) ==
     \/ Big(r)
-    \/ \E a \in Paced(rs, si) : a.inv < r.ret /\ PassT(a) + Iv(r, si) + tol - r.arr > maxq
-NoSpuriousReject(rs, si, maxq, tol) == \A r \in rs : r.res = "reject" => Justified(r, rs, si, maxq, tol)
+    \/ \E a \in Paced(rs) : a.inv < r.ret /\ PassT(a) + Iv(r) + tol - r.arr > r.mq
+NoSpuriousReject(rs, tol) == \A r \in rs : r.res = "reject" => Justified(r, rs, tol)
 =============================================================================
